@@ -244,8 +244,12 @@ static std::string render(const Fmt &f, const std::vector<TN> &tree, unsigned ma
 	}
 	if (mask & BLANK) d += "\n \n";
 	if (mask & COMLINE) { d += f.com[0]; d += " end"; d += '\n'; }
-	// the blank after an encapsulated section name terminates the name: it is not decoration
-	bool name_last = f.style == 'x' && !lines.empty() && lines.back().kind == 1 && !(mask & (BLANK | COMLINE | TRAIL | TRAILCOM));
+	// the white space after an encapsulated section name terminates the name: it is not decoration
+	bool name_last = false;
+	if (f.style == 'x' && !lines.empty() && lines.back().kind == 1) {
+		const std::string &nm = lines.back().n->name;
+		name_last = d.size() > nm.size() && d[d.size() - 1] == '\n' && d.compare(d.size() - 1 - nm.size(), nm.size(), nm) == 0;
+	}
 	if ((mask & NOEOL) && !name_last && !d.empty() && d[d.size() - 1] == '\n') d.resize(d.size() - 1);
 	return d;
 }
